@@ -129,6 +129,27 @@ def check(rng, deep):
     run('solve_jacobian[flat]', [flat], lambda: flat.solve_jacobian(ss, U, Tg, Z, T=T, Js=Js), dict(ss=ss, unknowns=U, targets=Tg, inputs=Z, Js=Js))
     run('solve_impulse_linear[flat]', [flat], lambda: flat.solve_impulse_linear(ss, U, Tg, sh, Js=Js), dict(ss=ss, unknowns=U, targets=Tg, inputs=sh, Js=Js), echo=('inputs',))
     run('solve_impulse_nonlinear[flat]', [flat], lambda: flat.solve_impulse_nonlinear(ss, U, Tg, sh, options=quiet), dict(ss=ss, inputs=sh, options=quiet), echo=('inputs',))
+    # saved simple-block Jacobians multiplied from BOTH sides across calls: a model with a dense-Jacobian block downstream of the simple blocks (dense @ sparse) evaluated before and
+    # after general-equilibrium calls that multiply the same saved objects from the left (sparse @ dense); objects derived from a saved Jacobian must not inherit what it cached
+    from sequence_jacobian import combine
+    nrs = np.random.default_rng(19)
+    from sequence_jacobian.classes import JacobianDict
+    tail = JacobianDict({'yy': {o: nrs.normal(size=(T, T)) for o in ('c', 'k')}}, name='dense_tail')
+    m2 = combine([*flat.blocks, tail], name='flat_dense_tail')
+    Js2 = flat.partial_jacobians(ss, ins, T=T)
+    n += 1
+    try:
+        first = m2.jacobian(ss, ins, ['yy'], T=T, Js=Js2)
+        flat.solve_jacobian(ss, U, Tg, Z, T=T, Js=Js2)
+        flat.solve_impulse_linear(ss, U, Tg, sh, Js=Js2)
+        combine([JacobianDict({u: {z: nrs.normal(size=(T, T)) for z in Z} for u in U}, name='uz'), *flat.blocks], name='uz_first').jacobian(ss, Z, T=T, Js=Js2)
+        again = m2.jacobian(ss, ins, ['yy'], T=T, Js=Js2)
+        fresh = m2.jacobian(ss, ins, ['yy'], T=T)
+        if result_value(first) != result_value(again) or max(float(np.abs(np.asarray(again['yy'][i]) - np.asarray(fresh['yy'][i])).max()) for i in fresh['yy']) > 1e-9:
+            C.push(out, dict(what='jacobian with saved simple-block Jacobians (Js=) returns something else after general-equilibrium calls that used the same saved objects', input=dict(kind='audit', call='jacobian[dense block downstream, saved Js] after history'),
+                             signature=dict(op='history-dependent', call='jacobian', what='saved-sparse-both-sides')))
+    except Exception as ex:
+        C.push(out, dict(what=f'history with saved simple-block Jacobians raised {type(ex).__name__}: {ex}', input=dict(kind='audit', call='jacobian[dense block downstream, saved Js] after history'), signature=dict(op='raise', where='saved-sparse-both-sides')))
     # after that history the first calls must return what they returned initially
     run('jacobian[flat] after history', [flat], lambda: flat.jacobian(ss, ins, T=T), dict(ss=ss))
     # nested solved block incl. its own factorisation supplied back to it, and a REMAPPED solved block
